@@ -1,4 +1,5 @@
 #!/bin/bash
+# needs a scratch copy of the repository first:  git -C /repo worktree add --detach /tmp/repodev HEAD   (remove it afterwards: git -C /repo worktree remove --force /tmp/repodev)
 # Runs the quick check of its property on every behaviour-preserving change under /verif/seeded/benign (applied to the
 # scratch copy /tmp/repodev, never /repo) and writes /verif/seeded/RESULTS-benign.md. Expected: no VIOLATION anywhere.
 out=/tmp/sweep-benign.txt; : > $out
